@@ -17,6 +17,7 @@ TRUSTED_BASE = [
     "partial correctness: termination only where a decreases clause is stated",
     "generators are modelled eagerly by their yielded sequence: sound where the consumer does not write what the generator still reads (Node.remove_children, which does, is only assumed)",
     "traversal callbacks (C06): the event trace of a callback is a prophecy sequence TN/TK whose i-th entry is *defined* at the exit of call_traversal_cb (ghost counter tlen grows by one per call, so every index is defined once); the visit grammar VPre/VPost/VK* is given by introduction rules only (what is derived holds in their least fixed point)",
+    "list.sort: assumed to leave a permutation of the list (order by key uninterpreted; a raising key callback leaves some permutation); ghost code attached to it moves the ghost positions `pos` of the sorted nodes along that permutation (specification-only state)",
     "nested functions are verified against their own sidecar contract (captured variables as pseudo-arguments); termination of their recursion is not proved",
     "the message expression of a failing assert is not evaluated (it can raise in CPython: see DESIGN 8.7a)",
     "assumed contracts / assumed parameter-type variants listed under assumed_contracts are used, never proved; the run-time cross-check evaluates them on real calls",
